@@ -2573,10 +2573,19 @@ fn main() {
     // the sync-world engine evaluates them on every device after every
     // sync step; its (tagged) failures are merged into this evidence
     let mut merge_worlds = Value::Null;
-    if (prop == "C02" || prop == "C20") && std::env::var("VKIT_FRAGMENT").is_err() {
+    if (prop == "C02" || prop == "C20" || prop == "C16") && std::env::var("VKIT_FRAGMENT").is_err() {
         let frag = wd.path().join("syncx-fragment.json");
         let syncx = std::env::current_exe().unwrap().with_file_name("syncx");
-        let st = std::process::Command::new(&syncx)
+        let mut cmd = std::process::Command::new(&syncx);
+        if prop == "C16" {
+            // the integrity report after merges: sqlite client + server in
+            // quick (the rows carry their own checksums there), both in thorough
+            cmd.env("SYNCX_C16", "1");
+            if args.tier == Tier::Quick {
+                cmd.env("SYNCX_CONFIG", "db");
+            }
+        }
+        let st = cmd
             .args(["--prop", &prop, "--tier", args.tier.as_str()])
             .env("VKIT_FRAGMENT", &frag)
             .env("SYNCX_BYPRODUCT", "1")
